@@ -76,33 +76,53 @@ def replay_kind(kind):
 
 
 def search():
+    """one or two accepted jobs in the cache, each with its own per-job limits (or none), pool defaults, 8 scans"""
     vals = [None, 2.0, 5.0]
-    for pj_soft, pj_hard, t_soft, t_hard in itertools.product(vals, repeat=4):
-        soft = pj_soft if pj_soft is not None else t_soft
-        hard = pj_hard if pj_hard is not None else t_hard
-        clock = Clock()
-        pool.monotonic = clock
-        cache = {}
-        job = make_handle('apply', cache, acc=100.0, timeout=pj_hard, soft=pj_soft)
-        th, log = scan_setup(t_soft, t_hard, cache)
-        it = th.handle_timeouts()
-        for t in (100.5, 101.0, 102.5, 103.0, 104.0, 105.5, 106.0, 110.0):
-            clock.t = t
-            before_h, before_s = len(log['hard']), len(log['soft'])
-            was_ready = job.ready()
-            next(it)
-            conf = {'per_job_soft': pj_soft, 'per_job_hard': pj_hard, 'pool_soft': t_soft, 'pool_hard': t_hard,
-                    'accepted_at': 100.0, 'scan_at': t}
-            if len(log['hard']) > before_h and not (hard and t >= 100.0 + hard):
-                return conf, 'hard timeout before the hard limit expired'
-            if len(log['soft']) > before_s and not (soft and t >= 100.0 + soft):
-                return conf, 'soft timeout before the soft limit expired'
-            if hard and t >= 100.0 + hard and not was_ready and job._job in cache and len(log['hard']) == before_h:
+    for t_soft, t_hard in itertools.product(vals, repeat=2):
+        for limits in ([(a, b)] for a in vals for b in vals):
+            r = search_one(t_soft, t_hard, limits)
+            if r[0]:
+                return r
+    for t_soft, t_hard in itertools.product(vals, repeat=2):
+        for l1 in itertools.product(vals, repeat=2):
+            for l2 in itertools.product(vals, repeat=2):
+                r = search_one(t_soft, t_hard, [l1, l2])
+                if r[0]:
+                    return r
+    return None, None
+
+
+def search_one(t_soft, t_hard, limits):
+    clock = Clock()
+    pool.monotonic = clock
+    cache = {}
+    jobs = [make_handle('apply', cache, acc=100.0, timeout=pj_hard, soft=pj_soft) for pj_soft, pj_hard in limits]
+    eff = [((ps if ps is not None else t_soft), (ph if ph is not None else t_hard)) for ps, ph in limits]
+    th, log = scan_setup(t_soft, t_hard, cache)
+    it = th.handle_timeouts()
+    for t in (100.5, 101.0, 102.5, 103.0, 104.0, 105.5, 106.0, 110.0):
+        clock.t = t
+        before = (list(log['hard']), list(log['soft']))
+        was_ready = [j.ready() for j in jobs]
+        in_cache = [j._job in cache for j in jobs]
+        next(it)
+        for n, job in enumerate(jobs):
+            soft, hard = eff[n]
+            conf = {'jobs': [{'per_job_soft': a, 'per_job_hard': b} for a, b in limits], 'pool_soft': t_soft,
+                    'pool_hard': t_hard, 'accepted_at': 100.0, 'scan_at': t, 'job': n}
+            new_h = log['hard'].count(job._job) - before[0].count(job._job)
+            new_s = log['soft'].count(job._job) - before[1].count(job._job)
+            if new_h and not (hard and t >= 100.0 + hard):
+                return conf, 'hard timeout before the hard limit of this job expired'
+            if new_s and not (soft and t >= 100.0 + soft):
+                return conf, 'soft timeout for a job whose soft limit has not expired (or that has none)'
+            if hard and t >= 100.0 + hard and not was_ready[n] and in_cache[n] and not new_h:
                 return conf, 'job past its hard limit was not failed by the scan that saw it'
-            if len(log['soft']) > 1:
-                return conf, 'soft limit signalled %d times for one job' % len(log['soft'])
-            if job._job not in cache:
-                break
+            if soft and t >= 100.0 + soft and not was_ready[n] and in_cache[n] and not new_h and \
+                    log['soft'].count(job._job) == 0 and not (hard and t >= 100.0 + hard):
+                return conf, 'job past its soft limit was not signalled by the scan that saw it'
+            if log['soft'].count(job._job) > 1:
+                return conf, 'soft limit signalled %d times for one job' % log['soft'].count(job._job)
     return None, None
 
 
